@@ -53,14 +53,14 @@ func (g *yg) sq(tag string, items ...*yaml.Node) *yaml.Node {
 
 // scalar vocabulary: descriptor -> (tag, text)
 var yScalarDesc = []string{"int", "Foo", "vec", "fvec", "bigvec", "map", "opt", "arr", "arrf", "gen", "badtype", "empty",
-	"i3", "i0", "ineg", "ibig", "null", "bool", "float", "tvec", "trec", "tbogus"}
+	"i3", "i0", "ineg", "ibig", "null", "bool", "float", "tvec", "trec", "tbogus", "ihuge"}
 var yScalarTag = []string{"!!str", "!!str", "!!str", "!!str", "!!str", "!!str", "!!str", "!!str", "!!str", "!!str", "!!str", "!!str",
-	"!!int", "!!int", "!!int", "!!float", "!!null", "!!bool", "!!float", "!vector", "!record", "!bogus"}
+	"!!int", "!!int", "!!int", "!!float", "!!null", "!!bool", "!!float", "!vector", "!record", "!bogus", "!!int"}
 var yScalarVal = []string{"int", "Foo", "int*", "int*3", "int*18446744073709551616", "string->int", "int?", "int[x,y]", "float[2,3]", "Foo<int>", "(", "",
-	"3", "0", "-1", "18446744073709551616", "", "true", "1.5", "5", "", "x"}
+	"3", "0", "-1", "18446744073709551616", "", "true", "1.5", "5", "", "x", "30000000"}
 
 // a smaller scalar vocabulary for positions below the first level (keeps the quick tier small)
-var yScalarDescSmall = []string{"int", "Foo", "fvec", "badtype", "i3", "ineg", "ibig", "null", "tbogus"}
+var yScalarDescSmall = []string{"int", "Foo", "fvec", "badtype", "i3", "ineg", "ibig", "ihuge", "null", "tbogus"}
 
 func ySub(desc []string) (tags, vals []string) {
 	for _, d := range desc {
